@@ -226,6 +226,17 @@ func (x *Xlat) anchoredAsserts(st *State, fr *Frame, s ast.Stmt, when string) {
 			env.pos = s.Pos()
 		}
 		g := env.evalBool(a.Expr)
+		if a.Assume {
+			st.assume(g)
+			lbl := a.Name
+			if lbl == "" {
+				lbl = fmt.Sprint(i + 1)
+			}
+			x.used[fmt.Sprintf("%s: explicit assume[%s] %s \"%s\": %s", x.curFunc, lbl, when, a.Anchor, a.Text)] = true
+			o := x.emit(st, fmt.Sprintf("%s/cover.assume[%s]", x.curFunc, lbl), "cover", TFalse, s.Pos(), "assumption is consistent with the path (must NOT be unsat)")
+			o.Cover = true
+			continue
+		}
 		nm := fmt.Sprintf("%s/assert.%d", x.curFunc, i+1)
 		if a.Name != "" {
 			nm = fmt.Sprintf("%s/assert[%s]", x.curFunc, a.Name)
